@@ -23,8 +23,12 @@ enum Where {
     Msg(u32),
     End,
     Task,
+    /// the joined task panics at 2 s; at its 4th message the module itself shuts down
+    TaskThenShutdown,
+    /// ... shuts down and restarts one second later
+    TaskThenRestart,
 }
-const PLACES: [Where; 9] = [Where::None, Where::Start(0), Where::Start(1), Where::Msg(1), Where::Msg(2), Where::Msg(3), Where::Msg(5), Where::End, Where::Task];
+const PLACES: [Where; 11] = [Where::None, Where::Start(0), Where::Start(1), Where::Msg(1), Where::Msg(2), Where::Msg(3), Where::Msg(5), Where::End, Where::Task, Where::TaskThenShutdown, Where::TaskThenRestart];
 
 struct P {
     log: Log,
@@ -35,6 +39,7 @@ struct P {
     silent: bool,
     catching: bool,
     out: bool,
+    went_down: bool,
 }
 impl Module for P {
     fn num_sim_start_stages(&self) -> usize {
@@ -70,7 +75,7 @@ impl Module for P {
                 panic!("boom")
             }
         }
-        if st == 1 && self.fault == Where::Task {
+        if st == 1 && matches!(self.fault, Where::Task | Where::TaskThenShutdown | Where::TaskThenRestart) && !self.went_down {
             let sv = self.silent_variant;
             let h = tokio::spawn(async move {
                 des::time::sleep(Duration::from_secs(2)).await;
@@ -91,6 +96,14 @@ impl Module for P {
             }
             if self.n < 12 {
                 schedule_in(Message::default().kind(9), Duration::from_secs(1));
+            }
+            if self.n == 4 && !self.went_down && matches!(self.fault, Where::TaskThenShutdown | Where::TaskThenRestart) {
+                self.went_down = true;
+                if self.fault == Where::TaskThenShutdown {
+                    current().shutdown();
+                } else {
+                    current().shutdow_and_restart_in(Duration::from_secs(1));
+                }
             }
             if self.fault == Where::Msg(self.n) {
                 if self.silent_variant {
@@ -136,7 +149,7 @@ fn run(c: &Case, silent_variant: bool) -> RunOut {
     let r = quiet_catch(move || {
         let log = l2;
         let mut sim = Sim::new(());
-        let mk = |name, fault, catching, out| P { log: log.clone(), name, fault, silent_variant, n: 0, silent: false, catching, out };
+        let mk = |name, fault, catching, out| P { log: log.clone(), name, fault, silent_variant, n: 0, silent: false, catching, out, went_down: false };
         sim.node("a", mk("a", Where::None, false, true));
         sim.node("f", mk("f", c.f, c.cf, true));
         sim.node("g", mk("g", c.g, c.cg, true));
@@ -206,7 +219,7 @@ fn check(c: &Case, clean: &[String]) -> Result<u64, String> {
     }
     // the faulty module itself: nothing after the panic (messages, wake-ups); tear-down excluded
     for (name, w) in [("f", c.f), ("g", c.g), ("h", c.h)] {
-        if matches!(w, Where::None | Where::Task | Where::End) {
+        if matches!(w, Where::None | Where::Task | Where::End | Where::TaskThenShutdown | Where::TaskThenRestart) {
             continue;
         }
         // tear-down is not a message or wake-up: the log is cut where tear-down begins (module a's at_sim_end runs first)
@@ -225,7 +238,7 @@ fn check(c: &Case, clean: &[String]) -> Result<u64, String> {
     for (name, w, catching) in [("f", c.f, c.cf), ("g", c.g, c.cg), ("h", c.h, c.ch)] {
         match w {
             Where::None => {}
-            Where::Task => {
+            Where::Task | Where::TaskThenShutdown | Where::TaskThenRestart => {
                 if catching {
                     may.push(name.into());
                 } else {
@@ -286,7 +299,7 @@ impl Property for C13 {
         ]
     }
     fn required_features(&self, _tier: Tier) -> Vec<&'static str> {
-        vec!["single_fault", "two_faulty_modules", "three_faulty_modules", "catching_stereotype", "fault_in_start_stage", "fault_in_teardown", "fault_in_joined_task", "fault_in_nth_message"]
+        vec!["single_fault", "two_faulty_modules", "three_faulty_modules", "catching_stereotype", "fault_in_start_stage", "fault_in_teardown", "fault_in_joined_task", "fault_in_nth_message", "joined_task_panic_then_shutdown_of_the_module"]
     }
     fn explore(&self, ctx: &mut Ctx) {
         let clean = run(&CLEAN, false);
@@ -347,6 +360,7 @@ impl Property for C13 {
                                 Where::Start(_) => ctx.hit("fault_in_start_stage"),
                                 Where::End => ctx.hit("fault_in_teardown"),
                                 Where::Task => ctx.hit("fault_in_joined_task"),
+                                Where::TaskThenShutdown | Where::TaskThenRestart => ctx.hit("joined_task_panic_then_shutdown_of_the_module"),
                                 Where::Msg(_) => ctx.hit("fault_in_nth_message"),
                                 Where::None => {}
                             }
